@@ -583,7 +583,7 @@ m("c12-overlay-pages-cached-before-root-check", "C12", "nomt/src/lib.rs",
 m("c12-poisoned-flag-touched-before-check", "C12", "nomt/src/lib.rs",
   "        // The previous root must be checked before the rollback delta is recorded: a stale\n",
   "        nomt.store.poison();\n        // The previous root must be checked before the rollback delta is recorded: a stale\n",
-  "G2|FinishedSession::try_commit_nonblocking|call=store::Store::poison")
+  "FinishedSession::try_commit_nonblocking|effect=Store::poison|guard=root_eq")
 m("benign-read-metrics-before-root-check", "C12", "nomt/src/lib.rs",
   "        let _write_guard = self.take_global_guard.then(|| nomt.access_lock.write());\n\n        {\n            let mut shared = nomt.shared.lock();\n            if shared.root != self.prev_root {",
   "        let _write_guard = self.take_global_guard.then(|| nomt.access_lock.write());\n        let _cached = nomt.page_cache.get(nomt_core::page_id::ROOT_PAGE_ID).is_some();\n        let _poisoned = nomt.store.is_poisoned();\n\n        {\n            let mut shared = nomt.shared.lock();\n            if shared.root != self.prev_root {",
